@@ -17,9 +17,10 @@ META = {
             "delete_file/1, delete_directory/1, rename_file/2, file_copy/2 and the observers file_exists/1, directory_exists/1, "
             "file_size/2, directory_files/2, path_canonical/2; path_segments/2 as a pure function; must_be(chars) argument "
             "checks. TLC explores the reachable trees breadth-first and applies every operation in every state (quick/thorough) "
-            "and generates random histories of 25 operations (thorough); each history is replayed on the real file system in a "
-            "fresh scratch directory, and after EVERY step the outcome of the operation, all observers on all pool paths (and "
-            "non-normalised path texts) and the real tree walked with os.walk are compared with the model.",
+            "and generates random histories of 25 operations; each history is replayed on the real file system in a fresh scratch "
+            "directory; after EVERY step the outcome of the operation and the real tree walked with os.walk are compared with the "
+            "model, and all observers on all pool paths (and non-normalised path texts) after the last step of a BFS history and "
+            "after every step of a random history.",
     "note": "Trusted: TLC, the harness, Python's os module as the view of the real file system. Pool of 4 (quick) / 6 (thorough) "
             "names incl. a non-ASCII name, a name with a space and nested paths; sizes 0/3/4097 bytes (content is not compared, "
             "only sizes). Not covered: symbolic links, permissions, relative paths/working_directory/2, the file time predicates "
@@ -477,8 +478,9 @@ def run(tier):
     rep = Report(PROP, tier, META["level"])
     rep.rule = ("TLC explores the trees reachable by =< 3 (quick) / 2 (thorough, larger pool) effective operations (BFS, one witness history per tree) and applies "
                 "every operation (make_directory, make_directory_path, delete_file, delete_directory, rename_file, file_copy over "
-                "all (pairs of) pool paths, file creation by the driver) in each: one history per (tree, operation); thorough adds "
-                "random histories of 25 operations; after every step all observers and the real tree are compared. distinct = "
+                "all (pairs of) pool paths, file creation by the driver) in each: one history per (tree, operation); plus 40 (quick) "
+                "/ 300 (thorough) random histories of 25 operations (TLC -simulate, 6-name pool); after every step the outcome and "
+                "the real tree are compared, all observers after the last step (BFS) / every step (random histories). distinct = "
                 "distinct (operation, outcome, kind of the path(s) before, same-path, nested)")
     binary, degraded = common.build_harness(True)
     rep.degraded = degraded
@@ -498,11 +500,12 @@ def run(tier):
     if not hists or pure is None:
         raise common.ToolError("no histories generated")
     hists.sort(key=lambda h: json.dumps([[s["op"], s["p"], s["q"], s["n"]] for s in h]))
-    # every tree explored by the BFS is also the tree after the last step of some history, so in the thorough tier the
-    # observers run after the last step only (the outcome and the real tree are still compared after every step)
-    n = run_histories(rep, hists, binary, "b", observe_all=(tier == "quick"))
-    if tier == "thorough":
-        nw = 300
+    # every tree explored by the BFS is also the tree after the last step of some BFS history, so for these histories the
+    # observers run after the last step only (the outcome and the real tree are still compared after every step);
+    # the random histories run all observers after every step
+    n = run_histories(rep, hists, binary, "b", observe_all=False)
+    if True:
+        nw = 300 if tier == "thorough" else 40
         wres = run_tlc("MC_C48", "MC_C48_walk.cfg", workers=1, timeout=3600, simulate=nw, depth=27)
         if wres.error and wres.generated == 0:
             raise common.ToolError("C48 simulation failed: %s" % wres.error)
